@@ -35,6 +35,7 @@ type World struct {
 	LoadErrs  []string
 	specLits  []string
 	mutGlobals map[*ssa.Global]bool
+	pureResultSort map[string]string
 }
 
 func LoadWorld(repo string, patterns []string, verifDir string) (*World, error) {
@@ -45,7 +46,7 @@ func LoadWorld(repo string, patterns []string, verifDir string) (*World, error) 
 	}
 	w := &World{Repo: repo, Pkgs: pkgs, SSAPkgs: map[string]*ssa.Package{}, Sorts: NewSorts(), Contracts: NewContractSet(),
 		ufs: map[string]string{}, typeIDs: map[string]int{}, globals: map[*ssa.Global]int{}, funcIDs: map[*ssa.Function]int{},
-		funcsByKey: map[string]*ssa.Function{}, pure: map[string]bool{}, noHeap: map[string]bool{}}
+		funcsByKey: map[string]*ssa.Function{}, pure: map[string]bool{}, noHeap: map[string]bool{}, pureResultSort: map[string]string{}}
 	for _, p := range pkgs {
 		for _, e := range p.Errors {
 			w.LoadErrs = append(w.LoadErrs, e.Error())
